@@ -159,6 +159,7 @@ def programs():
     add("isclose-logical", dict(a=(), b=()), lambda np, a, b: (np.isclose(a, b, rtol=0.5, atol=0.1) & np.logical_or(a > 0, b > 0)).astype(float))
     add("pow-arctan2", dict(a=(), b=()), lambda np, a, b: np.arctan2(a, b) + abs(a) ** 1.5 + b**3)
     add("zeros-like-ones", dict(a=(3,),), lambda np, a: np.zeros_like(a, dtype=float) + np.ones((a.shape[0], 3)) * a)
+    add("masked-assign-on-block-array", dict(a=(3,), b=(3,)), lambda np, a, b: _masked_blocks(np, a, b))
     add("expand-dims", dict(a=(3,),), lambda np, a: a / np.expand_dims(np.linalg.norm(a, axis=-1), axis=-1))
     return P
 
@@ -190,6 +191,14 @@ def _mask_col(np, a, b):
     out[m, 2] = (b * 5)[m]
     out[:, 0], out[:, 1] = out[:, 1] * 2, out[:, 0] + 0.0
     return out
+
+
+def _masked_blocks(np, a, b):
+    t = np.concatenate((a, b * 2, a + b), axis=0)
+    m = np.all(t[:, :2] > 0, axis=1)
+    t[m] = 0
+    t[~m] = 5.0
+    return t * 2 + np.concatenate((b, a, a), axis=0)
 
 
 def _nested(np, a, b):
